@@ -6,7 +6,6 @@ package builder
 
 import (
 	"slices"
-	"strings"
 
 	"github.com/roddhjav/apparmor.d/pkg/prebuild"
 )
@@ -25,23 +24,11 @@ func init() {
 }
 
 func (b Enforce) Apply(opt *Option, profile string) (string, error) {
-	matches := regFlags.FindStringSubmatch(profile)
-	if len(matches) == 0 {
-		return profile, nil
-	}
-
-	flags := strings.Split(matches[1], ",")
-	idx := slices.Index(flags, "complain")
-	if idx == -1 {
-		return profile, nil
-	}
-	flags = slices.Delete(flags, idx, idx+1)
-	strFlags := "{\n"
-	if len(flags) >= 1 {
-		strFlags = " flags=(" + strings.Join(flags, ",") + ") {\n"
-	}
-
-	// Remove all flags definition, then set new flags
-	profile = regFlags.ReplaceAllLiteralString(profile, "")
-	return regProfileHeader.ReplaceAllLiteralString(profile, strFlags), nil
+	return rewriteHeaders(profile, func(flags []string) ([]string, bool) {
+		idx := slices.Index(flags, "complain")
+		if idx == -1 {
+			return flags, false
+		}
+		return slices.Delete(flags, idx, idx+1), true
+	}), nil
 }
